@@ -92,10 +92,20 @@ class C14(World):
         self.enabled_faults = []
         self.nontrivial = False
         self.judged_conns = 0
+        self.outage = {}
 
     def fault_policy(self, conn):
         if not self.faults_on or not self.enabled_faults:
             return (F_NONE, None)
+        left = self.outage.get(conn.host, 0)       # a partition: the host stays unreachable for a few connections
+        if left > 0:
+            self.outage[conn.host] = left - 1
+            self.sim.count("fault.net.partition-connection")
+            self.nontrivial = True
+            return ([F_REFUSED, F_TIMEOUT][left % 2], None)
+        if self.ch.flag("net.partition", 0.03):
+            self.outage[conn.host] = 1 + self.ch.pick("net.partition.len", 4)
+            self.sim.count("fault.net.partition-start")
         if not self.ch.flag("net.fault", 0.10):
             return (F_NONE, None)
         kind = self.enabled_faults[self.ch.pick("net.kind", len(self.enabled_faults))]
